@@ -33,6 +33,8 @@ struct TaskSpec {
 
 struct ExecSpec {
     name: String,
+    /// number of submitter threads (task i is submitted by thread i % submitters)
+    submitters: usize,
     workers: usize,
     capacity: usize,
     tasks: Vec<TaskSpec>,
@@ -54,8 +56,8 @@ impl SchedSpec for ExecSpec {
     }
     fn describe(&self, _tier: Tier) -> String {
         format!(
-            "WorkStealingExecutor::new(workers={}, capacity={}) on a tokio multi-thread runtime; logical threads: 1 submitter + {} worker loops; tasks {:?}; schedule points at the top of each worker iteration, before pop_local/global/steal, before balance, at the idle branch (yield), and in submit before the capacity probe and before the push",
-            self.workers, self.capacity, self.workers, self.tasks
+            "WorkStealingExecutor::new(workers={}, capacity={}) on a tokio multi-thread runtime; logical threads: {} submitter(s) + {} worker loops; tasks {:?}; schedule points at the top of each worker iteration, before pop_local/global/steal, before balance, at the idle branch (yield), and in submit before the capacity probe and before the push",
+            self.workers, self.capacity, self.submitters, self.workers, self.tasks
         )
     }
     fn yield_sites(&self) -> Vec<&'static str> {
@@ -74,27 +76,34 @@ impl SchedSpec for ExecSpec {
         let shared = Arc::new(Mutex::new(Shared { rt: None, exec: None }));
         let submitted = Arc::new(AtomicUsize::new(0));
 
-        // submitter
-        let (sh, cn, ac, sub) = (shared.clone(), counters.clone(), accepted.clone(), submitted.clone());
-        let tasks = self.tasks.clone();
-        let submitter: Box<dyn FnOnce() + Send> = Box::new(move || {
-            let exec = sh.lock().unwrap().exec.clone().expect("executor created in after_spawn");
-            for (i, t) in tasks.iter().enumerate() {
-                let cn2 = cn.clone();
-                let task = ClosureTask::new(move || {
-                    let cn3 = cn2.clone();
-                    Box::pin(async move {
-                        cn3[i].fetch_add(1, Ordering::SeqCst);
-                        Ok(())
-                    }) as std::pin::Pin<Box<dyn std::future::Future<Output = zipora::error::Result<()>> + Send>>
-                })
-                .with_priority(t.priority)
-                .with_stealable(t.stealable);
-                let r = exec.submit(Box::new(task) as Box<dyn Task>);
-                ac[i].store(if r.is_ok() { 1 } else { 2 }, Ordering::SeqCst);
-                sub.fetch_add(1, Ordering::SeqCst);
-            }
-        });
+        // submitters
+        let nsub = self.submitters.max(1);
+        let mut submitter_threads: Vec<Box<dyn FnOnce() + Send>> = Vec::new();
+        for j in 0..nsub {
+            let (sh, cn, ac, sub) = (shared.clone(), counters.clone(), accepted.clone(), submitted.clone());
+            let tasks = self.tasks.clone();
+            submitter_threads.push(Box::new(move || {
+                let exec = sh.lock().unwrap().exec.clone().expect("executor created in after_spawn");
+                for (i, t) in tasks.iter().enumerate() {
+                    if i % nsub != j {
+                        continue;
+                    }
+                    let cn2 = cn.clone();
+                    let task = ClosureTask::new(move || {
+                        let cn3 = cn2.clone();
+                        Box::pin(async move {
+                            cn3[i].fetch_add(1, Ordering::SeqCst);
+                            Ok(())
+                        }) as std::pin::Pin<Box<dyn std::future::Future<Output = zipora::error::Result<()>> + Send>>
+                    })
+                    .with_priority(t.priority)
+                    .with_stealable(t.stealable);
+                    let r = exec.submit(Box::new(task) as Box<dyn Task>);
+                    ac[i].store(if r.is_ok() { 1 } else { 2 }, Ordering::SeqCst);
+                    sub.fetch_add(1, Ordering::SeqCst);
+                }
+            }));
+        }
 
         let workers = self.workers;
         let capacity = self.capacity;
@@ -165,9 +174,9 @@ impl SchedSpec for ExecSpec {
         });
 
         Scenario {
-            threads: vec![submitter],
+            threads: submitter_threads,
             external_threads: self.workers,
-            identify: Some(Box::new(|site, a, _b| if site.starts_with("ws.worker.") || site.starts_with("ws.find.") { Some(1 + a) } else { None })),
+            identify: Some(Box::new(move |site, a, _b| if site.starts_with("ws.worker.") || site.starts_with("ws.find.") { Some(nsub + a) } else { None })),
             monitor: None,
             fingerprint: Some(fingerprint),
             after_spawn: Some(after_spawn),
@@ -338,9 +347,22 @@ fn main() {
             let desc: Vec<String> = tasks.iter().map(|x| format!("p{}{}", x.priority, if x.stealable { "s" } else { "n" })).collect();
             reg.add(Sched(ExecSpec {
                 name: format!("WorkStealingExecutor[workers={w},capacity={c}] tasks [{}]", desc.join(",")),
+                submitters: 1,
                 workers: w,
                 capacity: c,
                 tasks,
+                bound_quick: 1,
+                bound_thorough: 2,
+            }));
+        }
+        // two submitters racing for the last slot of a worker's local queue (probe and push are separate lock sections)
+        for (w, c, n) in [(1usize, 1usize, 2usize), (1, 2, 3), (1, 2, 4), (2, 1, 4)] {
+            reg.add(Sched(ExecSpec {
+                name: format!("WorkStealingExecutor[workers={w},capacity={c}] {n} plain tasks from 2 submitters"),
+                submitters: 2,
+                workers: w,
+                capacity: c,
+                tasks: vec![t(0, true); n],
                 bound_quick: 1,
                 bound_thorough: 2,
             }));
@@ -357,6 +379,7 @@ fn main() {
                     }
                     reg.add(Sched(ExecSpec {
                         name: format!("WorkStealingExecutor[workers={w},capacity={c}] {n} plain tasks, default schedule"),
+                        submitters: 1,
                         workers: w,
                         capacity: c,
                         tasks: vec![t(0, true); n],
